@@ -2683,6 +2683,22 @@ func (d *svDirector) c08EndBlock(br *rig.BlockRecord, pre, post *svSnap) {
 			continue
 		}
 		delta := int64(qc.BatchCounter) - int64(pc.BatchCounter)
+		// an expiration entry belongs to a batch: the end block adds one for a context only together with a new batch
+		// (issued or skipped - both advance the batch counter)
+		if delta == 0 {
+			had := map[int64]bool{}
+			for _, e := range pre.ExpQ {
+				if e.Ctx == id {
+					had[e.H] = true
+				}
+			}
+			for _, e := range post.ExpQ {
+				if e.Ctx == id && !had[e.H] {
+					run.Eval(1)
+					run.Violation("C08:service:expiration-entry-for-a-batch-never-issued", detail, "context %s (batch counter %d before and after the end block of height %d, state %s -> %s) gained an expiration entry at height %d", id, pc.BatchCounter, H, pc.State, qc.State, e.H)
+				}
+			}
+		}
 		switch {
 		case delta > 0:
 			run.Eval(4)
